@@ -145,6 +145,10 @@ def path_attr(I, p, name):
         n = fs_name(p.e)
         I.path.assume(z3.Not(z3.Contains(n, z3.StringVal("/"))))
         return VStr(n)
+    if name == "suffix":
+        # final component's extension: an uninterpreted function of the path (the model knows nothing else about it)
+        f = z3.Function("fs_suffix", _S, _S)
+        return VStr(f(p.e))
     if name in PATH_METHODS:
         return VFunc("bmethod", name, selfv=p)
     if I.spec:
@@ -298,8 +302,8 @@ def _const_kw(v, what):
 
 def fs_ntf(I, args, kw):
     """tempfile.NamedTemporaryFile(prefix=P, dir=D, delete=False)  [binary mode w+b]"""
-    if args or set(kw) - {"prefix", "dir", "delete", "mode"} or "prefix" not in kw or "dir" not in kw:
-        raise Unsupported("NamedTemporaryFile: only (prefix=, dir=, delete=False) is modelled")
+    if args or set(kw) - {"prefix", "dir", "delete", "mode", "suffix"} or "prefix" not in kw or "dir" not in kw:
+        raise Unsupported("NamedTemporaryFile: only (prefix=, dir=, delete=False[, suffix=]) is modelled")
     if _const_kw(kw.get("delete", VBool(True)), "delete") is not False:
         raise Unsupported("NamedTemporaryFile(delete=True)")
     prefix, d = kw["prefix"], kw["dir"]
@@ -314,12 +318,20 @@ def fs_ntf(I, args, kw):
     I.path.assume(z3.Length(r) == 8)
     I.path.assume(z3.InRe(r, z3.Loop(TMP_CHARS, 8, 8)))
     n = z3.Concat(prefix.e, r)
+    sfx = kw.get("suffix")
+    has_suffix = isinstance(sfx, VStr)
+    if has_suffix:
+        # name = prefix + 8 random chars + suffix: no longer of the temp-name shape unless the suffix is empty
+        n = z3.Concat(n, sfx.e)
     raw = fs_join(d.e, n)
     key = fs_norm(raw)
     m = _ghost(I, "fs")
     I.path.assume(z3.Not(z3.Select(m.dom, key)))          # O_CREAT|O_EXCL: the name was free
     I.path.assume(fs_name(key) == n)
-    I.path.assume(fs_is_temp(fs_name(key), prefix.e))
+    if has_suffix:
+        I.path.assume(z3.Implies(z3.Length(sfx.e) == 0, fs_is_temp(fs_name(key), prefix.e)))
+    else:
+        I.path.assume(fs_is_temp(fs_name(key), prefix.e))
     I.path.assume(fs_parent(key) == fs_norm(d.e))
     I.path.assume(fs_norm(key) == key)
 
